@@ -106,7 +106,7 @@ Section Solve.
               (basis5 : list nat) (piv5 : list (nat * nat)) (k : nat).
     Hypothesis Hrun : phase2 0 fuel' 0 T4 basis4 piv0 = (st2, it2, T5, basis5, piv5).
 
-    Let r := extract T5 basis5 n st2 k minimize piv5.
+    Let r := extract T5 basis5 n st2 k c piv5.
 
     Lemma final_point :
       feasible A b (r_solution r) /\ dot w (r_solution r) == - snd (t_obj T5) /\ r_objective r == dot c (r_solution r).
@@ -121,9 +121,8 @@ Section Solve.
       { apply (Heq4 _ _ Lv). apply Heq5. apply bsol_sat_g. exact Hs5. }
       destruct (sol_feasible v _ Lv (bsol_nonneg_g T5 N basis5 Hr5) Hsat) as [Hf Ho].
       rewrite Hx in Hf, Ho. split; [exact Hf|]. split; [exact Ho|].
-      unfold r, extract. cbn [r_objective r_solution]. rewrite Qred_correct.
-      unfold r, extract in Ho. cbn [r_solution] in Ho. unfold w in Ho. rewrite weights_dot in Ho.
-      destruct minimize; lra.
+      (* _extract reports c . x of the point it returns *)
+      unfold r, extract. cbn [r_objective r_solution]. apply Qred_correct.
     Qed.
 
     Lemma final_optimal : st2 = OPTIMAL -> lp_optimal minimize c A b (r_solution r).
@@ -173,7 +172,7 @@ Section Solve.
     exists T4 basis4 fuel' piv0 st2 it2 T5 basis5 piv5 k,
       g_inv N T4 basis4 /\ (forall v z, length v = N -> (tab_sat v z T0 <-> tab_sat v z T4))
       /\ phase2 0 fuel' 0 T4 basis4 piv0 = (st2, it2, T5, basis5, piv5)
-      /\ r = extract T5 basis5 n st2 k minimize piv5.
+      /\ r = extract T5 basis5 n st2 k c piv5.
 
   Lemma solve_lp_run fuel :
     let r := solve_lp 0 minimize fuel c A b in
@@ -203,7 +202,7 @@ Section Solve.
       split; [exact E2 | reflexivity].
   Qed.
 
-  Lemma extract_status T basis st k piv : r_status (extract T basis n st k minimize piv) = st.
+  Lemma extract_status T basis st k piv : r_status (extract T basis n st k c piv) = st.
   Proof. reflexivity. Qed.
 
   Theorem optimal_sound fuel r :
@@ -235,7 +234,7 @@ Section Solve.
     destruct H as [[H _]|[H|H]]; try congruence.
     destruct H as [T4 [basis4 [fuel' [piv0 [st2 [it2 [T5 [basis5 [piv5 [k [Hg [Heq [Hrun Hext]]]]]]]]]]]]].
     rewrite Hext in Hst. rewrite extract_status in Hst.
-    apply (final_unbounded T4 basis4 Hg Heq fuel' piv0 st2 it2 T5 basis5 piv5 k Hrun Hst).
+    apply (final_unbounded T4 basis4 Hg Heq fuel' piv0 st2 it2 T5 basis5 piv5 Hrun Hst).
   Qed.
 
   (* whenever phase 2 is reached (any status, MAX_ITER included) the returned point is feasible *)
